@@ -9,7 +9,7 @@ Extraction "model.ml"
   compute_SCCs
   mk_kripke kclone substructure labels_r knext_r all_labels get_fair_states fair_states_ref
   label_fair_states
-  LNot restrict restrict_ctl unfair_ctls unfair_ctl height
+  LNot restrict restrict_ltl restrict_ctl unfair_ctls unfair_ctl height
   pl_ok ctls_state ctl_state ctl_path ltl_path ltl_state arity_ok
   mk cast_to print eq_obj eq_obj_pybool hash_obj
   ctl_modelcheck ltl_modelcheck ctls_modelcheck_in
